@@ -221,6 +221,25 @@ def run_after_rejected(chk, spec):
 
 RUNNERS.update({"big": run_big, "after_rejected": run_after_rejected})
 
+def run_promoted_key_history(chk, spec):
+	"""join on a date key column, promote the column by writing a datetime into it, write a duplicate of an (already promoted) cell, join again against a datetime
+	key: every call is judged on the keys the column holds at that moment"""
+	from datetime import date, datetime
+	days = [date(2024, 1, 1 + i) for i in range(4)]
+	L = Table({"k": list(days), "lid": [0, 1, 2, 3]})
+	R1 = Table({"r": [days[0], days[2], date(2024, 3, 3)], "rid": [10, 11, 12]})
+	R2 = Table({"r": [datetime(2024, 1, 1), datetime(2024, 1, 3), datetime(2024, 1, 2, 9, 30)], "rid": [20, 21, 22]})
+	how = spec["how"]
+	judge_cell(chk, L, R1, {"how": how, "expect": spec["expect"], "lon": ["k"], "ron": ["r"], "stratum": "cell-history", "variant": "promoted-key/before", "key_mode": spec["key_mode"]})
+	w1 = call(L["k"].__setitem__, 1, datetime(2024, 1, 2, 9, 30))                      # promotes every cell to a datetime
+	w2 = call(L["k"].__setitem__, 3, datetime(2024, 1, 3)) if spec["duplicate"] else None   # equals the promoted third cell
+	chk.counters["promoted-key-writes-ok" if w1.ok and (w2 is None or w2.ok) else "promoted-key-writes-refused"] += 1
+	judge_cell(chk, L, R2, {"how": how, "expect": spec["expect"], "lon": ["k"], "ron": ["r"], "stratum": "cell-history", "variant": "promoted-key/after", "key_mode": spec["key_mode"]})
+	judge_cell(chk, R2, L, {"how": how, "expect": spec["expect"], "lon": ["r"], "ron": ["k"], "stratum": "cell-history", "variant": "promoted-key/after-swapped", "key_mode": spec["key_mode"]})
+
+
+RUNNERS.update({"promoted_key_history": run_promoted_key_history})
+
 
 def realise(rng, lu, ru, variant, kind="int"):
 	"""key columns (1 or 2 per side) realising (left unique?, right unique?) with the duplicate placed per variant"""
@@ -284,6 +303,11 @@ def run(chk):
 					hows = rng.sample(HOWS, len(HOWS))
 					calls = [(hows[0], "one_to_one"), (hows[1 % len(hows)], "many_to_one"), (hows[2 % len(hows)], "many_to_many"), ("full", "one_to_one"), ("inner", "many_to_many"), ("left", "one_to_many"), ("inner", "many_to_one")]
 					chk.case("big", {"nr": nr, "nl": nl, "dup": dup, "kind": kind, "left_dup": left_dup, "calls": calls, "seed": rng.randrange(10**9), "key_mode": rng.choice(["name", "vector"])}, "big")
+	for how in HOWS:
+		for expect in ("one_to_one", "one_to_many", "many_to_one", "many_to_many"):
+			for duplicate in (True, False):
+				for key_mode in ("name", "vector"):
+					chk.case("promoted_key_history", {"how": how, "expect": expect, "duplicate": duplicate, "key_mode": key_mode}, "promoted-key-history")
 	for how in HOWS:
 		for why in ("unhashable", "left-duplicate"):
 			for first_expect in ("one_to_one", "one_to_many", "many_to_one"):
